@@ -318,6 +318,11 @@ package pegnet
 //@   ensures envHealthy ==> result1 == nil || result1 == sql.ErrNoRows
 //@
 //@ // coinbase history rows (no balance effect)
+//@ func (*Pegnet).InsertFCTBurn
+//@   trusted
+//@   pure
+//@   ensures !isRejectErr(result)
+//@
 //@ func (*Pegnet).InsertCoinbase
 //@   trusted
 //@   pure
